@@ -117,6 +117,26 @@ func genRefsCase(r *rng) (cfg []cfgEntry, opts []string, hasRoots bool, refs []s
 	if r.coin(1, 6) {
 		cfg = append(cfg, cfgEntry{key: "core.bare", value: "true", hasValue: true})
 	}
+	// the same entry again later (git lists an entry once per scope and per occurrence), possibly with
+	// an entry of the opposite polarity or another name in between: order and repetition matter
+	if len(cfg) > 0 && r.coin(1, 3) {
+		e := cfg[r.n(len(cfg))]
+		if strings.HasPrefix(e.key, "refgroup.") {
+			if r.coin(1, 2) {
+				mid := e
+				switch {
+				case strings.HasSuffix(e.key, ".include"):
+					mid.key = strings.TrimSuffix(e.key, ".include") + ".exclude"
+				case strings.HasSuffix(e.key, ".exclude"):
+					mid.key = strings.TrimSuffix(e.key, ".exclude") + ".include"
+				case strings.HasSuffix(e.key, ".name"):
+					mid.value = "Other Name"
+				}
+				cfg = append(cfg, mid)
+			}
+			cfg = append(cfg, e)
+		}
+	}
 	// options
 	no := r.n(5)
 	if r.coin(1, 5) {
